@@ -692,12 +692,42 @@ FORGE_AUDIT = [
 ]
 
 
+_VLEN_SEEN = set()
+
+
+def _validator_len_bound(vb, F, depth=0):
+    """largest length a validator lets through: the smallest upper bound on a `.len()` that dominates every Ok return
+    (directly, or in a validator it calls with `?`); None if there is none"""
+    from rulelib import upper_bounds
+    oks = [r[0] for r in return_assignments(vb) if r[2] == "Ok"]
+    if not oks:
+        return None
+    worst = 0
+    for ob_ in oks:
+        ubs = upper_bounds(vb, ob_, lambda tt: (tt[0] == "call" and (tt[1] or "").endswith("::len")) or tt[0] == "len", F)
+        best = min((u[0] - 1 for u in ubs), default=None)
+        if best is None and depth < 2:
+            for cb_ in succeeded_calls(vb, ob_, F):
+                ct = vb.blocks[cb_]["t"]
+                if ct["k"] == "call" and VALIDATORS.search(ct["fn"] or ""):
+                    inner = F.bodies.get(ct["res"] or "") or F.bodies.get(ct["fn"] or "")
+                    if inner is not None and inner.path != vb.path:
+                        m2 = _validator_len_bound(inner, F, depth + 1)
+                        if m2 is not None:
+                            best = m2 if best is None else min(best, m2)
+        if best is None:
+            return None
+        worst = max(worst, best)
+    return worst
+
+
 def rule_forge(ctx, F, R="C03.forge", validated=None, len_limit=None, audit=None, floor=60, min_ctors=10):
     VALIDATED = validated if validated is not None else globals()["VALIDATED"]
     LEN_LIMIT = len_limit if len_limit is not None else globals()["LEN_LIMIT"]
     FORGE_AUDIT = audit if audit is not None else globals()["FORGE_AUDIT"]
     global _CUR_VALIDATED
     _CUR_VALIDATED = VALIDATED
+    _VLEN_SEEN.clear()
     try:
         _rule_forge(ctx, F, R, VALIDATED, LEN_LIMIT, FORGE_AUDIT, floor, min_ctors)
     finally:
@@ -768,6 +798,21 @@ def _rule_forge(ctx, F, R, VALIDATED, LEN_LIMIT, FORGE_AUDIT, floor, min_ctors):
                 counts["U1"] += 1
                 ctx.ob(R, b, site, True, where=b.where(bb),
                        detail="U1: dominated by checked %s" % b.blocks[val_calls[0]]["t"]["fn"].split("::")[-1])
+                # the validator relied on has to establish the type's length limit itself
+                if lim is not None:
+                    for vb_ in val_calls:
+                        vt = b.blocks[vb_]["t"]
+                        vbody = F.bodies.get(vt["res"] or "") or F.bodies.get(vt["fn"] or "")
+                        if vbody is None or (vbody.path, ty) in _VLEN_SEEN:
+                            continue
+                        _VLEN_SEEN.add((vbody.path, ty))
+                        mx = _validator_len_bound(vbody, F)
+                        ctx.ob(R, vbody, "validator of %s bounds the length by %d" % (ty.split("::")[-1], lim), mx is not None and mx <= lim,
+                               "%s is what %s relies on before it wraps octets as a %s without further checks, but on its success "
+                               "exit the length of the octets is %s: a %s longer than %d octets can be built from safe code (composing "
+                               "it panics or writes a wrong length octet)"
+                               % (vbody.path.split("::")[-1], p.split("::")[-1], ty.split("::")[-1],
+                                  "not bounded at all" if mx is None else "bounded by %d only" % mx, ty.split("::")[-1], lim), vbody.where())
                 continue
             # value produced by a validator-like call (e.g. result of split_from / from_slice flows in)
             if any(s[0] == "call" and s[1] and VALIDATORS.search(s[1]) for s in walk(deep_strip(arg))):
